@@ -12,7 +12,7 @@
 //verif:noop (*google.golang.org/grpc/internal/grpclog.PrefixLogger).Warningf
 //verif:noop (*google.golang.org/grpc/internal/grpclog.PrefixLogger).Errorf
 //verif:noreplay stubbed channel and quiescence-driven event sequencing: witnesses are re-executed deterministically in the engine
-//verif:outside the xdsChannel below the authority (ADS stream: C42; resource decoding and validation are reflection-driven and replaced by already-decoded updates: each update names a resource as valid with content 1 or 2, or as rejected with error e1 or e2, or omits it); one authority with two management servers (primary, fallback), one resource type, 2 resource names, 2 watchers; 3 events (quick) / 4 (thorough), each processed to quiescence before the next; watcher callbacks complete at once
+//verif:outside the xdsChannel below the authority (ADS stream: C42; resource decoding and validation are reflection-driven and replaced by already-decoded updates: each update names a resource as valid with content 1 or 2, or as rejected with error e1 or e2, or omits it); one authority with two management servers (three in one entry), one resource type, 2 resource names, 2 watchers; 3 events (quick) / 4 (thorough), each processed to quiescence before the next; watcher callbacks complete at once
 package xdsclient
 
 import (
@@ -82,7 +82,14 @@ type verifRes struct {
 
 var verifResNames = [...]string{"x", "y"}
 
-var verifAuthEvents, verifAuthNames, verifAuthWatchers = 3, 2, 2
+var verifAuthEvents, verifAuthNames, verifAuthWatchers, verifAuthServers = 3, 2, 2, 2
+
+// three management servers, one resource, one watcher, five events: reaches fallback over two levels and a revert
+// from the last server straight to the primary
+func verifH_C43_authority_3servers() {
+	verifAuthEvents, verifAuthNames, verifAuthWatchers, verifAuthServers = 5, 1, 1, 3
+	verifH_C43_authority()
+}
 
 // one resource name and one watcher, five events: reaches accept / reject / identical re-delivery, and
 // fallback / revert / late update from the lower-priority server
@@ -109,16 +116,15 @@ func verifH_C43_authority() {
 		feat = ServerFeatureIgnoreResourceDeletion
 	}
 	servers := []ServerConfig{
-		{ServerIdentifier: clients.ServerIdentifier{ServerURI: "primary"}, ServerFeature: feat},
-		{ServerIdentifier: clients.ServerIdentifier{ServerURI: "fallback"}, ServerFeature: feat},
-	}
-	var chans [2]*xdsChannel
-	var opened, cleaned [2]int
+		{ServerIdentifier: clients.ServerIdentifier{ServerURI: "s0-primary"}, ServerFeature: feat},
+		{ServerIdentifier: clients.ServerIdentifier{ServerURI: "s1-fallback"}, ServerFeature: feat},
+		{ServerIdentifier: clients.ServerIdentifier{ServerURI: "s2-fallback"}, ServerFeature: feat},
+	}[:verifAuthServers]
+	nsrv := verifAuthServers
+	var chans [3]*xdsChannel
+	var opened, cleaned [3]int
 	getChannel := func(sc *ServerConfig, _ *authority) (*xdsChannel, func(), error) {
-		s := 0
-		if sc.ServerIdentifier.ServerURI == "fallback" {
-			s = 1
-		}
+		s := int(sc.ServerIdentifier.ServerURI[1] - '0')
 		ch := &xdsChannel{}
 		chans[s] = ch
 		opened[s]++
@@ -134,10 +140,10 @@ func verifH_C43_authority() {
 	ws := [2]*verifWatcher{{id: 0}, {id: 1}}
 	expect := [2][]string{}
 	active := -1
-	chanOpen := [2]bool{}
-	wantOpened, wantCleaned := [2]int{}, [2]int{}
-	subscribed := [2]map[string]bool{{}, {}} // ghost: names subscribed on each server
-	actualSubs := [2]map[string]bool{{}, {}} // as observed from the channel calls
+	chanOpen := [3]bool{}
+	wantOpened, wantCleaned := [3]int{}, [3]int{}
+	subscribed := [3]map[string]bool{{}, {}, {}} // ghost: names subscribed on each server
+	actualSubs := [3]map[string]bool{{}, {}, {}} // as observed from the channel calls
 	subSeen := 0
 	onDone, wantDone := 0, 0
 	toAll := func(name, ev string) {
@@ -160,8 +166,10 @@ func verifH_C43_authority() {
 		for ; subSeen < len(verifSubLog); subSeen++ {
 			op := verifSubLog[subSeen]
 			s := 0
-			if op.ch == chans[1] && chans[1] != nil {
-				s = 1
+			for k := 1; k < nsrv; k++ {
+				if op.ch == chans[k] && chans[k] != nil {
+					s = k
+				}
 			}
 			if op.sub {
 				verifAssert(!actualSubs[s][op.name], "a resource is not subscribed twice on one server")
@@ -170,7 +178,7 @@ func verifH_C43_authority() {
 				delete(actualSubs[s], op.name)
 			}
 		}
-		for s := 0; s < 2; s++ {
+		for s := 0; s < nsrv; s++ {
 			for _, n := range verifResNames {
 				verifAssert(actualSubs[s][n] == subscribed[s][n], "a resource is subscribed on exactly the servers in use for it, and unsubscribed after all its watchers are removed")
 			}
@@ -238,8 +246,9 @@ func verifH_C43_authority() {
 				}
 				delete(res, n)
 				if len(res) == 0 {
-					closeServer(0)
-					closeServer(1)
+					for k := 0; k < nsrv; k++ {
+						closeServer(k)
+					}
 					active = -1
 				}
 			}
@@ -247,14 +256,14 @@ func verifH_C43_authority() {
 			cancels[w]() // idempotent
 			verifCover("unwatch")
 		case 2: // an update from a management server
-			s := verifChoice("from-server", 2)
+			s := verifChoice("from-server", nsrv)
 			verifAssume(chans[s] != nil) // the server has been contacted at some point
 			updates := map[string]dataAndErrTuple{}
 			md := xdsresource.UpdateMetadata{Version: "v"}
 			process := active >= 0 && s <= active
 			if process && s < active {
 				// a higher-priority server delivers: revert to it, drop the lower ones
-				for t := s + 1; t < 2; t++ {
+				for t := s + 1; t < nsrv; t++ {
 					for _, r := range res {
 						delete(r.subs, t)
 					}
@@ -331,7 +340,7 @@ func verifH_C43_authority() {
 			}
 			a.adsResourceDoesNotExist(typ, n)
 		case 4: // the ADS stream to a server fails
-			s := verifChoice("failed-server", 2)
+			s := verifChoice("failed-server", nsrv)
 			verifAssume(chanOpen[s])
 			afterRecv := verifBool("after-a-response-was-received")
 			var err error = errors.New("stream failed")
@@ -347,7 +356,7 @@ func verifH_C43_authority() {
 				}
 				fellBack := false
 				if waiting {
-					for t := s + 1; t < 2 && !fellBack; t++ {
+					for t := s + 1; t < nsrv && !fellBack; t++ {
 						if !chanOpen[t] {
 							chanOpen[t], fellBack, active = true, true, t
 							wantOpened[t]++
